@@ -38,6 +38,9 @@ func (p *Plan) refObj(e *Ent, n *plan.Node, cur int) string {
 		if pf.ID != cur && pf.Kind != FSingle && p.U.Unknown[e.Type+"/"+e.ID+"/"+strconv.Itoa(pf.Sub)] {
 			continue // the providing subgraph does not know the entity: nothing is merged here
 		}
+		if pf.ID != cur && p.repSkipped(e, pf, 0) {
+			continue // a non-null @requires input of the providing fetch was not delivered for this entity: no representation, nothing merged
+		}
 		if pf.ID != cur && pf.Kind != FSingle && p.U.ErrOn[e.Type+"/"+e.ID+"/"+strconv.Itoa(pf.Sub)] &&
 			len(pf.Sel.Fields) > 0 && pf.Sel.Fields[0].Def == def {
 			if def.Nullable {
@@ -87,4 +90,42 @@ func fieldDef(t *TypeDef, name string) *FieldDef {
 		}
 	}
 	return nil
+}
+
+// repSkipped: the representation of entity e does not render for the entity fetch pf, because a non-null
+// required input (pf.Req) is missing from the merged data: its provider (an entity fetch anchored at the same
+// object, among pf's dependencies) does not know the entity, answers it with an error on exactly that field
+// (project: the first selected field is omitted / null), or was itself left without a representation.
+func (p *Plan) repSkipped(e *Ent, pf *Fetch, depth int) bool {
+	if pf == nil || pf.Kind == FSingle || depth > 8 {
+		return false
+	}
+	for _, r := range pf.Req {
+		if !r.Nullable && !p.delivered(e, r, pf, depth) {
+			return true
+		}
+	}
+	return false
+}
+
+func (p *Plan) delivered(e *Ent, r *FieldDef, pf *Fetch, depth int) bool {
+	for _, id := range pf.Deps {
+		rf := p.fetchByID(id)
+		if rf == nil || rf.Kind == FSingle || rf.Type != e.Type || rf.ResponsePath() != pf.ResponsePath() || rf.Sel == nil {
+			continue
+		}
+		has := false
+		for _, sf := range rf.Sel.Fields {
+			has = has || sf.Def == r
+		}
+		if !has {
+			continue
+		}
+		key := e.Type + "/" + e.ID + "/" + strconv.Itoa(rf.Sub)
+		if p.U.Unknown[key] || (p.U.ErrOn[key] && rf.Sel.Fields[0].Def == r) || p.repSkipped(e, rf, depth+1) {
+			return false
+		}
+		return true
+	}
+	return true // selected by the parent fetch inside its own selection: the plain value
 }
